@@ -218,6 +218,18 @@ func (r *Run) step(fr *Frame, st *State, in ssa.Instruction) {
 		if v.K == KStr {
 			st.assume(app("=", app("box_string", iv.T), v.T))
 		}
+		if v.K == KStruct {
+			// the fields of a boxed struct value are visible to contracts as (|box T.f| iface)
+			for _, lf := range structLeaves(v.Ty) {
+				srt := scalarSort(lf.ty)
+				if srt == "" {
+					continue
+				}
+				name := "box " + typeName(v.Ty) + "." + lf.name
+				r.declareFun(name, "(Int) "+srt)
+				st.assume(app("=", app(sym(name), iv.T), r.termOf(leafVal(v, lf.path))))
+			}
+		}
 		fr.vals[x] = iv
 	case *ssa.ChangeInterface:
 		v := *r.val(fr, st, x.X)
